@@ -259,6 +259,11 @@ func (pm *ProtocolManager) handleMsg(p *peer) error {
 		if last == nil {
 			last = pm.chainman.CurrentBlock()
 			request.Amount = last.Height - request.Number + 1
+			// the recomputed amount must honour the reply limit as well (Amount == 0 makes Number+Amount-1 wrap, nothing
+			// is found there and the amount would become the whole chain)
+			if request.Amount > uint64(downloader.MaxHashFetch) {
+				request.Amount = uint64(downloader.MaxHashFetch)
+			}
 		}
 		if last.Height < request.Number {
 			return p.SendBlockHashes(nil)
